@@ -180,7 +180,11 @@ class StmtMixin:
     def lv_set_elem(self, cont_ast, i, v, p, line):
         """cont_ast[i] = v  (functional update of the container, written back through its own lvalue)."""
         c = self.ev(cont_ast, p)
-        if isinstance(c, VDict) or isinstance(c, VMap): raise Undecided('dict item assignment')
+        if isinstance(c, VMap):
+            k1, k2 = self.map_key(i, p, line); t, _ = self.num(v, 'map value', p, line)
+            new = VMap(z3.Store(c.has, k1, z3.Store(z3.Select(c.has, k1), k2, z3.BoolVal(True))), z3.Store(c.val, k1, z3.Store(z3.Select(c.val, k1), k2, t)))
+            self.lv_set(cont_ast, new, p, line); return
+        if isinstance(c, VDict): raise Undecided('dict item assignment')
         if isinstance(i, VOpt):
             t, _ = self.num(i, 'index', p, line); i = VInt(t)
         if isinstance(c, VList):
@@ -483,6 +487,7 @@ class StmtMixin:
             elif name == 'objective': t = z3.Int('x')
             elif name.startswith('used:'): t = z3.Bool('b')
             elif name.startswith('rec:'): t = None
+            elif name == 'alloc': t = z3.Array('ALLOC', I, B)
         if t is None or not z3.is_expr(t): raise Undecided('cannot havoc ghost ' + name)
         p.ghost[name] = fresh(name.replace(':', '_') + tag, t.sort())
 
